@@ -53,6 +53,14 @@ func CheckRootSchema(rootSchema *schema.Schema) {
 			if a.Begin() != b.Begin() {
 				return a.Begin() < b.Begin()
 			}
+			// Two files of the same name (the types of one API file): the named
+			// types written in them, then the texts.
+			if oa, ob := nameOfTypeForError(names[i], a, types), nameOfTypeForError(names[j], b, types); oa != ob {
+				return oa < ob
+			}
+			if ca, cb := string(a.RootFile().Content()), string(b.RootFile().Content()); ca != cb {
+				return ca < cb
+			}
 		}
 		if ua != ub {
 			return ua
